@@ -9,7 +9,7 @@ Driver ops for C14 (syntax shared with harness/c14):
     progi (d0 d1 …) <term>      leaf-level interleaving (Model/TlsSmall.lean `runI`): every goroutine is parked before each
                                 leaf operation; choice d resumes runnable goroutine number d mod #runnable
 
-    term ::= (obs) | (set k n) | (get k) | (push n) | (deftype a) | (load a) | (panic)
+    term ::= (obs) | (set k n) | (get k) | (del k) | (push n) | (pop) | (deftype a) | (load a) | (panic)
            | (doctx id term…) | (doparent id term…) | (do id term…) | (try id term…) | (doloader term…) | (fork term…) | (go term…) | (seq term…) | (recover term…)
 
 Output: `g0:N ev ev … | g1:P ev … ; cur=- live=0` — one block per goroutine in creation order (`N` normal, `P` panicked),
@@ -34,6 +34,8 @@ partial def progOf : Sexp → Option Prog
   | .list [.atom "set", .atom k, n] => if okAtom k then n.nat?.map (.set k) else none
   | .list [.atom "get", .atom k] => if okAtom k then some (.get k) else none
   | .list [.atom "push", n] => n.nat?.map .push
+  | .list [.atom "pop"] => some .pop
+  | .list [.atom "del", .atom k] => if okAtom k then some (.del k) else none
   | .list [.atom "deftype", .atom a] => if okAtom a then some (.deftype a) else none
   | .list [.atom "load", .atom a] => if okAtom a then some (.load a) else none
   | .list (.atom "doctx" :: id :: ts) => do
@@ -92,7 +94,7 @@ def render (w : World) : String :=
   if w.oof then "fuel" else
   let gs := (List.range w.nextGid).map (goroutine w.log)
   let cur := tlGet 0 ctxKey w
-  let tag := cur.bind fun c => aget tagKey (w.ctxs c).vars
+  let tag := cur.bind fun c => (w.ctxs c).tag
   " | ".intercalate gs ++ s!" ; cur={tagStr cur tag} live={live w}"
 
 def schedOf : Sexp → Option (List Nat)
